@@ -1,4 +1,4 @@
-From RS Require Import Base BaseFacts Network Tour Transition Schedule SchedInv SchedObs SchedStruct SchedCostsFacts.
+From RS Require Import SchedPeel Base BaseFacts Network Tour Transition Schedule SchedInv SchedObs SchedStruct SchedCostsFacts.
 (* SchedUsageFacts.v — proof of [stmt_reachable_usage] (SchedStruct.v): in every reachable schedule the depot-usage
    map [s_usage] holds, for every (depot, type), exactly the vehicles of that type whose tour starts (first
    component) / ends (second component) at that depot, without duplicates, and its keys are duplicate-free.
@@ -427,7 +427,7 @@ Lemma update_tours_us s forms dids uns p ntp r ntr moved
     = Ok (vehicles1, tours2, forms2, usage2, dummies2, ids1, dids1, uns2, costs2) ->
   UX nw vehicles1 tours2 [] usage2.
 Proof.
-  intros I H. unfold update_tours in H.
+  intros I H. apply update_tours_peel in H. unfold update_tours_prefix in H.
   monp H.
   match goal with E : _ = Ok (?a, ?b, ?c, ?d, ?e, ?f) |- _ =>
     assert (Q : same_but p (s_vehicles s) a (s_tours s) b /\
